@@ -80,14 +80,15 @@ Qed.
 
 Lemma single_producer_rr_pre (l : str) (s : st) : single_producer s -> single_producer (rr_pre l s).
 Proof.
-  intros H f l1 l2 A B.
+  intros H f l1 l2 Ha A B.
+  change (is_detached (KFile, f) (rr_pre l s)) with (is_detached (KFile, f) s) in Ha.
   set (p := fun d => key_eqb (dsnk d) (KStep, l) && ddyn d).
   assert (Hp : forall d, p d = true -> kind_eqb (fst (dsnk d)) KStep = true).
   { intros d Hd. unfold p in Hd. apply andb_true_iff in Hd. destruct Hd as [Hd _]. unfold key_eqb in Hd.
     apply andb_true_iff in Hd. destruct Hd as [Hd _]. exact Hd. }
   change (file_sinks_of_step l1 (rr_pre l s)) with (file_sinks_of_step l1 (del_deps_where p s)) in A.
   change (file_sinks_of_step l2 (rr_pre l s)) with (file_sinks_of_step l2 (del_deps_where p s)) in B.
-  rewrite (sinks_after_del p l1 s Hp) in A. rewrite (sinks_after_del p l2 s Hp) in B. exact (H f l1 l2 A B).
+  rewrite (sinks_after_del p l1 s Hp) in A. rewrite (sinks_after_del p l2 s Hp) in B. exact (H f l1 l2 Ha A B).
 Qed.
 
 (* Step.reset_for_rerun of a leaf step preserves K, provided the producers of its BUILT products
